@@ -156,17 +156,16 @@ def sc_yield(V, nmoves=2, cycles=2):
     V.prove(ok_pos, "weight-zero-move-never-chosen-freely", info=info)
 
 
-def sc_add_move(V, cycles=3):
+def sc_add_move(V, cycles=3, nmoves=2):
     from ase import Atoms
 
     from quansino.mc.core import MonteCarlo
 
     mc = MonteCarlo(Atoms("H"), max_cycles=cycles, seed=1)
-    m1 = V.int("m1", 0, cycles + 1)
-    m2 = V.int("m2", 0, cycles + 1)
-    info = f"cycles={cycles}"
+    table = tuple((chr(ord("a") + i), V.int(f"m{i + 1}", 0, cycles + 1)) for i in range(nmoves))
+    info = f"cycles={cycles}:moves={nmoves}"
     raised = []
-    for nm, m in (("a", m1), ("b", m2)):
+    for nm, m in table:
         try:
             mc.add_move(BareMove(), BareCriteria(), name=nm, minimum_count=m)
             raised.append(False)
@@ -174,7 +173,7 @@ def sc_add_move(V, cycles=3):
             raised.append(True)
     # reference: a move is refused iff the minimum counts stored so far plus its own exceed the cycles
     stored = 0
-    for (nm, m), r in zip((("a", m1), ("b", m2)), raised):
+    for (nm, m), r in zip(table, raised):
         over = (stored + m) > cycles
         V.prove(_true(V, over) if r else _true(V, SB(z3.Not(symx.sb(over))) if V.mode == "sym" else not over), "refused-iff-over-committed", info=info + f":{nm}:raised={r}")
         if not r:
@@ -198,11 +197,13 @@ def _plan(tier):
         ("yield", dict(nmoves=1, cycles=1), R),
         ("add_move", dict(cycles=1), ("done",)),
         ("add_move", dict(cycles=3), ("done",)),
+        ("add_move", dict(cycles=3, nmoves=3), ("done",)),
     ]
     if not q:
         P.append(("yield", dict(nmoves=3, cycles=3), R))
         P.append(("yield", dict(nmoves=2, cycles=4), R))
         P.append(("yield", dict(nmoves=3, cycles=2), R))
+        P.append(("add_move", dict(cycles=4, nmoves=4), ("done",)))
     P.append(("yield", dict(nmoves=2, cycles=2), (), "free-slot-probabilities-proportional-to-due-weights"))
     return P
 
@@ -215,7 +216,7 @@ def run(rep: Report):
         from ..runner import run_crosshair
 
         run_crosshair(rep, "ch_c09")
-    rep.bounds = {"moves": "<=2 (quick) / <=3", "cycles": "1-3 (quick) / 1-4", "intervals": "symbolic in [1,3]", "step": "symbolic in [0,6] (forks are on step % interval == 0, not on values)", "minimum counts": "[0,2], sum <= cycles", "weights": "symbolic reals in [0,10], due weights not all zero"}
+    rep.bounds = {"moves": "<=2 (quick) / <=3", "cycles": "1-3 (quick) / 1-4", "intervals": "symbolic in [1,3]", "step": "symbolic in [0,6] (forks are on step % interval == 0, not on values)", "minimum counts": "[0,2], sum <= cycles", "add_move": "2-3 (quick) / 4 successive additions with symbolic minimum counts in [0,cycles+1]", "weights": "symbolic reals in [0,10], due weights not all zero"}
     rep.assumptions = ["numpy Generator.choice contract: choice(a, p) returns a[k] with p[k] > 0; choice(arange(n), size=k, replace=False) returns k distinct slots"]
     rep.stubs = ["SymRNG behind a recording wrapper", "bare move/criteria objects"]
     rep.outside = ["the selection frequency itself (follows from p by numpy's contract)"]
